@@ -6,6 +6,7 @@ import (
 	"encoding/json"
 	"fmt"
 	mrand "math/rand"
+	"runtime"
 	"sort"
 	"time"
 
@@ -118,3 +119,5 @@ type verifyTime int64
 func (v verifyTime) T() time.Time { return time.Unix(int64(v), 0).UTC() }
 
 type x509Cert = x509.Certificate
+
+func setProcs(n int) int { return runtime.GOMAXPROCS(n) }
